@@ -125,7 +125,8 @@ int32_t pkcs1UnpadExt(const unsigned char *in,
 {
     const unsigned char *c, *end;
 
-    if (verifyUnpaddedLen && inlen < outlen + 10)
+    /* 00 || BT || PS (at least 8 octets) || 00 || D */
+    if (inlen < 11 || (verifyUnpaddedLen && inlen < outlen + 11))
     {
         psTraceCrypto("pkcs1Unpad failure\n");
         return PS_ARG_FAIL;
@@ -153,6 +154,12 @@ int32_t pkcs1UnpadExt(const unsigned char *in,
             }
         }
         c++;
+    }
+    if (c == end || c - in < 2 + 8)
+    {
+        /* no 00 separator at all, or fewer than 8 padding octets */
+        psTraceCrypto("pkcs1Unpad padding failure\n");
+        return PS_FAILURE;
     }
     c++;
 
